@@ -1464,8 +1464,11 @@ impl<'a> GeneratorState<'a> {
                 self.generate_load_store_statement(&param, code.pos, false)?;
             }
             Statement::Load(e) => {
-                let param = self.generate_expr(e, code.pos, false, false)?;
-                self.generate_load_store_statement(&param, code.pos, true)?;
+                // When the value has to be computed, the load is the code that computes it
+                self.protected = true;
+                let param = self.generate_expr(e, code.pos, false, false);
+                self.protected = false;
+                self.generate_load_store_statement(&param?, code.pos, true)?;
             }
             Statement::CSleep(s) => {
                 self.generate_csleep_statement(*s, code.pos)?;
